@@ -92,6 +92,9 @@ VERSRE: Final[Pattern[str]] = re.compile(r"HTTP/(\d)\.(\d)", re.ASCII)
 _TARGET_FORBIDDEN_RE: Final[Pattern[str]] = re.compile(r"[\x00-\x20\x7f]")
 DIGITS: Final[Pattern[str]] = re.compile(r"\d+", re.ASCII)
 HEXDIGITS: Final[Pattern[bytes]] = re.compile(rb"[0-9a-fA-F]+")
+_CHUNK_EXT_FORBIDDEN_CTL_RE: Final[Pattern[bytes]] = re.compile(
+    rb"[\x00-\x08\x0a-\x1f\x7f]"
+)
 
 # RFC 9110 singleton headers — duplicates are rejected in strict mode.
 # In lax mode (response parser default), the check is skipped entirely
@@ -1037,8 +1040,12 @@ class HttpPayloadParser:
                         i = chunk.find(CHUNK_EXT, 0, pos)
                         if i >= 0:
                             size_b = chunk[:i]  # strip chunk-extensions
-                            # Verify no LF in the chunk-extension
-                            if b"\n" in (ext := chunk[i:pos]):
+                            # Verify no LF (nor, in strict mode, any other CTL)
+                            # in the chunk-extension
+                            ext = chunk[i:pos]
+                            if b"\n" in ext or (
+                                not self._lax and _CHUNK_EXT_FORBIDDEN_CTL_RE.search(ext)
+                            ):
                                 exc = TransferEncodingError(
                                     f"Unexpected LF in chunk-extension: {ext!r}"
                                 )
